@@ -9,7 +9,7 @@ TRUST = ("Trusted: go/types+go/ssa (x/tools v0.29.0) and ruxvc's SSA semantics; 
 CLAIMS = {
  "C01": dict(
    text="Contract proof of the index and lookup logic, unbounded in tables and paths: match is proved (two loop invariants, existential first-match clauses) to return the static entry when one exists, else the FIRST route of the regular list for METHOD+first-segment that passes the prefix filter and whose regexp accepts, else the first accepting route of the irregular list, and nil only if none qualifies; appendRoute is proved to file a route in exactly its tier, at the end of its list, keeping every earlier route in place (so list order is registration order), with the static table keyed by METHOD+path. The inverted-test defect that dropped earlier irregular routes is fixed (canary).",
-   note=TRUST + "regexp is an uninterpreted model (reAcc/reSub/nsub): the translation pattern -> regexp in parseParamRoute/quotePointChar/checkAndParseOptional is string assembly handed to regexp.MustCompile and is NOT covered deductively (bounded stand-in bounded/patsem, labelled bounded). R-reg: tables are frozen before the first request.",
+   note=TRUST + "regexp is an uninterpreted model (reAcc/reSub/nsub): the translation pattern -> regexp in parseParamRoute/quotePointChar/checkAndParseOptional is string assembly handed to regexp.MustCompile and is NOT covered deductively (bounded stand-in bounded/patsem, labelled bounded); which tier a pattern is filed in (the literal-first-segment rule computed in parseParamRoute) and the selection among several qualifying routes end to end are run by the bounded stand-in bounded/patprio (labelled bounded). R-reg: tables are frozen before the first request.",
    design="6/C01"),
  "C02": dict(
    text="Contract proof: matchRegex is proved (loop invariant, exact handling of repeated names: last occurrence wins) to return parameters that are positionally the submatches of the route's regexp - name i <-> group i+1 - for exactly the route's variable names, given the group-count invariant routeWF that parseParamRoute establishes by a registration-time check (fix for the capturing-group defect); static hits carry no parameters; a cache hit returns the parameter map stored with the entry, which cacheDynamicRoute proves to be the map of the original match.",
@@ -49,7 +49,7 @@ CLAIMS = {
    design="6/C20"),
 
  "C04": dict(
-   text="Contract proof of the chain protocol: Context.Next is proved, against a rely/guarantee contract on HandlerFunc values, to start handlers in chain order, each at most once and none skipped, whatever each handler does with Next() (ghost counter started(c), exact int8 cursor arithmetic, loop invariant, no bound on the chain other than the documented 63); combineHandlers, Route.Use and Router.Use are proved to build the lists in the documented order.",
+   text="Contract proof of the chain protocol: Context.Next is proved, against a rely/guarantee contract on HandlerFunc values, to start handlers in chain order, each at most once and none skipped, whatever each handler does with Next() (ghost counter started(c), exact int8 cursor arithmetic, loop invariant, no bound on the chain other than the documented 63); combineHandlers, Route.Use and Router.Use are proved to build the lists in the documented order, and Add, the nine verb helpers (GET ... CONNECT) and Any to register one route for exactly the given method(s) whose chain is the group middleware in effect followed by the route's own middleware.",
    note=TRUST + "Relies on R-handler/R-cursor (user handlers act only through the Context API and do not drive the int8 cursor to 127). The composition 'every handler is a composition of API calls' is a meta-argument.",
    design="6/C04"),
  "C05": dict(
